@@ -49,6 +49,20 @@ func checkConcurrent(c concCase) error {
 			return fmt.Errorf("(single caller) %w", err)
 		}
 	}
+	return runConcurrentOnly(c)
+}
+
+// runConcurrentOnly starts the goroutines at once (no single-caller pass before).
+func runConcurrentOnly(c concCase) error {
+	one := func(oc opCase) error {
+		switch c.W {
+		case 64:
+			return checkGroup[obifp.Uint64](c.Group, oc)
+		case 128:
+			return checkGroup[obifp.Uint128](c.Group, oc)
+		}
+		return checkGroup[obifp.Uint256](c.Group, oc)
+	}
 	errs := make([]error, c.Goroutines)
 	var start, wg sync.WaitGroup
 	start.Add(1)
@@ -92,6 +106,21 @@ func TestPropConcurrent(t *testing.T) {
 		if hung.Load() {
 			return
 		}
+		c := genConcCase(rt)
+		if len(c.Cases) < 2 {
+			return
+		}
+		w := c.W
+		evid.Eval("concurrent", evid.Hash(fmt.Sprintf("%+v", c)), c.Goroutines >= 2 && len(c.Cases) >= 4, nil,
+			"concurrent:"+checkName(w, c.Group), fmt.Sprintf("concurrent:goroutines_%d", c.Goroutines))
+		if err := checkConcurrent(c); err != nil {
+			evid.Fail(rt, "concurrent", c, err)
+		}
+	})
+}
+
+func genConcCase(rt *rapid.T) concCase {
+	{
 		w := genWidth(rt)
 		groups := []string{}
 		for _, g := range groupsOf[w] {
@@ -125,13 +154,6 @@ func TestPropConcurrent(t *testing.T) {
 			}
 			c.Cases = append(c.Cases, oc)
 		}
-		if len(c.Cases) < 2 {
-			return
-		}
-		evid.Eval("concurrent", evid.Hash(fmt.Sprintf("%+v", c)), c.Goroutines >= 2 && len(c.Cases) >= 4, nil,
-			"concurrent:"+checkName(w, c.Group), fmt.Sprintf("concurrent:goroutines_%d", c.Goroutines))
-		if err := checkConcurrent(c); err != nil {
-			evid.Fail(rt, "concurrent", c, err)
-		}
-	})
+		return c
+	}
 }
